@@ -226,10 +226,9 @@ def run(ctx):  # noqa: C901, PLR0912, PLR0915
             missing = []
             for t in tables:
                 idx = f'{t}.{unique_idx[t]}'
-                checked = any(isinstance(x, ast.Compare) and any(isinstance(o, (ast.In, ast.NotIn)) for o in x.ops)
-                              and idx in unparse(x) for x in ast.walk(fi.node)) or \
-                    any(isinstance(x, ast.Call) and call_name(x) in ('get_one', 'get') and idx in unparse(x.func)
-                        for x in ast.walk(fi.node))
+                # what the membership tests / lookups of this function can refer to, locals written out (a table or an
+                # index chosen by an if/else into a local counts for every value it can take: cfg.value_cases)
+                checked = any(idx in t for t in _lookup_texts(g, fi))
                 raises = any(isinstance(x, ast.Raise) for x in walk_no_nested(fi.node))
                 generated = t == 'context_states' and 'uuid.uuid4().hex' in src and fi.name == 'mk_context_state'
                 if not (checked and raises) and not generated:
@@ -332,6 +331,30 @@ def run(ctx):  # noqa: C901, PLR0912, PLR0915
            '_update_from_other deep-copies the property values' if deep else
            '_update_from_other copies property values one level only (copy.copy): after a descriptor update / a '
            'consumer-side update the table object shares nested values with the source object', fi=uo)
+
+
+_lookup_cache = {}
+
+
+def _lookup_texts(g, fi):
+    """Texts of everything an `in` / `not in` test or a get_one / get call of fi can be applied to (locals resolved)."""
+    key = id(fi.node)
+    if key in _lookup_cache:
+        return _lookup_cache[key]
+    out = set()
+    for n in g.real_nodes():
+        for x in n.walk():
+            exprs = []
+            if isinstance(x, ast.Compare) and any(isinstance(o, (ast.In, ast.NotIn)) for o in x.ops):
+                exprs = list(x.comparators)
+            elif isinstance(x, ast.Call) and call_name(x) in ('get_one', 'get') and isinstance(x.func, ast.Attribute):
+                exprs = [x.func.value]
+            for e in exprs:
+                out.add(unparse(e))
+                for _facts, leaf in g.value_cases(n, e):
+                    out.add(unparse(leaf))
+    _lookup_cache[key] = out
+    return out
 
 
 # ---------------------------------------------------------------------- helpers
